@@ -414,7 +414,7 @@ def run_dep_plan(plan, out):
 
 
 def shards(tier, seed):
-    n = 6400 if tier == "quick" else 64000
+    n = 6400 if tier == "quick" else 256000
     specs = [{"kind": "sample", "seed": seed, "shard": i, "n": n // NSHARDS} for i in range(NSHARDS)]
     specs.append({"kind": "enum"})
     return specs
